@@ -1,6 +1,6 @@
 """Calibrator.calibrate and its callees: C02 (history), C09 (scheduling skeleton), C11 (failing batch), C14 (early stop),
 C18 (labelling)."""
-from pyvc.api import contract, ghost_var, klass, loop_invariant
+from pyvc.api import F, contract, ghost_var, klass, loop_invariant
 
 C = "black_it/calibrator.py"
 SB = "black_it/schedulers/base.py"
@@ -89,10 +89,10 @@ contract(f"{C}::Calibrator.simulate_model", params={"params": "arr2[real]"}, ret
          may_raise=["Exception"], props=["C02", "C11", "C01"],
          ensures=["result.shape[0] == params.shape[0] and result.shape[1] == self.ensemble_size and "
                   "result.shape[2] == self.N and result.shape[3] == self.D",
-                  "forall(range(0, params.shape[0]), lambda i: forall(range(0, self.ensemble_size), lambda e: "
+                  F("rows", "forall(range(0, params.shape[0]), lambda i: forall(range(0, self.ensemble_size), lambda e: "
                   "forall(range(0, self.N), lambda t: forall(range(0, self.D), lambda c: "
                   "result[i, e, t, c] == mout(self.model, params[i], self.N, "
-                  + _SEED.format(k="i * self.ensemble_size + e") + ", t, c)))))",
+                  + _SEED.format(k="i * self.ensemble_size + e") + ", t, c)))))"),
                   "self.random_generator.state == rng_iter(old(self.random_generator.state), "
                   "params.shape[0] * self.ensemble_size)"],
          modifies=["self.random_generator.state"],
@@ -103,9 +103,9 @@ loop_invariant(f"{C}::Calibrator.simulate_model", "comp1", over="enumerate(rep_p
                locals={"_comp1": "arr2[real]"},
                inv=["len(_comp1) == k",
                     "self.random_generator.state == rng_iter(old(self.random_generator.state), k)",
-                    "forall(range(0, k), lambda q: forall(range(0, _comp1[q].shape[0]), lambda t: "
+                    F("rows", "forall(range(0, k), lambda q: forall(range(0, _comp1[q].shape[0]), lambda t: "
                     "forall(range(0, _comp1[q].shape[1]), lambda c: _comp1[q][t, c] == "
-                    "mout(self.model, rep_params[q], self.N, " + _SEED.format(k="q") + ", t, c))))",
+                    "mout(self.model, rep_params[q], self.N, " + _SEED.format(k="q") + ", t, c))))"),
                     "forall(range(0, k), lambda q: _comp1[q].shape[0] == mout_rows(self.model, rep_params[q], self.N, "
                     + _SEED.format(k="q") + ") and _comp1[q].shape[1] == mout_cols(self.model, rep_params[q], self.N, "
                     + _SEED.format(k="q") + "))"],
@@ -204,7 +204,7 @@ loop_invariant(f"{C}::Calibrator.calibrate", 1, over="range(n_batches)", var="b"
 loop_invariant(f"{C}::Calibrator.calibrate", 2, over="new_simulated_data", var="q", locals={"new_losses": "real"},
                inv=["len(new_losses) == q",
                     # the q-th loss is the loss of exactly the q-th block of series against the real data
-                    "forall(range(0, q), lambda r: new_losses[r] == closs(self.loss_function, new_simulated_data[r], self.real_data))"],
+                    F("rows", "forall(range(0, q), lambda r: new_losses[r] == closs(self.loss_function, new_simulated_data[r], self.real_data))")],
                props=["C02"])
 
 from pyvc.api import stmt_contract  # noqa: E402
@@ -225,6 +225,7 @@ stmt_contract(f"{C}::Calibrator.calibrate",
 _N0 = "before(self.n_sampled_params)"
 stmt_contract(f"{C}::Calibrator.calibrate",
               match="new_simulated_data = self.simulate_model(new_params)", label="series-of-exactly-the-proposed-vectors",
+              facet="rows",
               ensures=["forall(range(0, new_params.shape[0]), lambda i: forall(range(0, self.ensemble_size), lambda e: "
                        "forall(range(0, self.N), lambda t: forall(range(0, self.D), lambda c: "
                        "new_simulated_data[i, e, t, c] == mout(self.model, new_params[i], self.N, "
@@ -232,6 +233,7 @@ stmt_contract(f"{C}::Calibrator.calibrate",
               props=["C02"])
 stmt_contract(f"{C}::Calibrator.calibrate",
               match="self.n_sampled_params = self.n_sampled_params + len(new_params)", label="recorded-rows-are-this-batch",
+              facet="rows",
               ensures=[
                   f"forall(range(0, new_params.shape[0]), lambda i: forall(range(0, new_params.shape[1]), lambda d: "
                   f"self.params_samp[{_N0} + i, d] == new_params[i, d]))",
